@@ -34,6 +34,18 @@ def handle : List String → String
     | some v => String.intercalate "," ((parseNegotiation v).map fun (x, q) =>
         strEncode x ++ ";" ++ (match q with | some t => strEncode t | none => "-"))
     | none => "bad-op"
+  | ["negor", items] =>
+    -- `negor v;q,v;q` (hex fields, `-` = no quality): what render_negotiation writes
+    let parsed := (items.splitOn ",").mapM fun it =>
+      match it.splitOn ";" with
+      | [v, q] => do
+        let v ← strDecode v
+        let q ← (if q = "-" then some none else (strDecode q).map some)
+        pure (v, q)
+      | _ => none
+    match parsed with
+    | some l => strEncode (renderNegotiation l)
+    | none => "bad-op"
   | ["range", v] =>
     match strDecode v with
     | some v =>
